@@ -81,3 +81,21 @@ Fixpoint run_sig (flag : bool) (ops : list (mode * qstate * option qstate * bool
       let '(o, cs, f1) := recv_first_sig m q d i flag in
       let '(os, cs', f2) := run_sig f1 r in (o :: os, cs ++ cs', f2)
   end.
+
+(* ---- the in-process transport (platform/inprocess/mod.rs): the three receives are crossbeam's recv / try_recv / recv_timeout on the
+   queue itself; no descriptor flag, no poll.  Trusted: crossbeam's semantics - a queued message is returned at once; an empty
+   queue whose senders are all gone reports disconnection at once, whatever the timeout; otherwise `try_recv` says 'empty' at once,
+   `recv_timeout(d)` after d unless something happens meanwhile, `recv` waits. ---- *)
+Definition inproc_recv (m : mode) (q : qstate) (during : option qstate) : outcome :=
+  match q with
+  | QMsg => OMsg
+  | QDead => ODisconnected
+  | QIdle =>
+      match m with
+      | MNonblocking => OEmpty
+      | MBlocking => OBlocked
+      | MTimeout _ => match during with Some QMsg => OMsg | Some QDead => ODisconnected | _ => OEmpty end
+      end
+  end.
+Definition inproc_run (ops : list (mode * qstate * option qstate)) : list outcome :=
+  map (fun o => let '(m, q, d) := o in inproc_recv m q d) ops.
